@@ -76,10 +76,12 @@ func (w *World) execCommit(st *Step) *Violation {
 		g0 := runtime.NumGoroutine()
 		err := w.commitOnce(st.Flavour, st.Workers)
 		if !inBubble {
-			for i := 0; i < 200 && runtime.NumGoroutine() > g0; i++ {
+			// workers have called wg.Done before the commit returned, but may not have left the scheduler's
+			// books yet: poll generously (up to ~3 s under load) before calling it a leak
+			for i := 0; i < 3200 && runtime.NumGoroutine() > g0; i++ {
 				runtime.Gosched()
 				if i > 50 {
-					time.Sleep(50 * time.Microsecond)
+					time.Sleep(time.Millisecond)
 				}
 			}
 			if g := runtime.NumGoroutine(); g > g0 {
